@@ -55,7 +55,20 @@ def _run_bounded(task):
         spec = load_spec(modname, tier)
         b = spec.bounded[idx]
         t0 = time.time()
-        out = b['run'](tier, seed)
+        # watchdog: a stand-in that does not finish (the code under test looping on a generated input, most likely) must not
+        # hang the check; it is reported as a checker error (undecided), the deductive obligations still speak
+        import signal
+
+        def _expired(signum, frame):
+            raise TimeoutError('bounded stand-in exceeded its wall-clock limit')
+        limit = int(os.environ.get('PYVC_BOUNDED_LIMIT_S', '1500' if tier != 'thorough' else '6000'))
+        old = signal.signal(signal.SIGALRM, _expired)
+        signal.alarm(limit)
+        try:
+            out = b['run'](tier, seed)
+        finally:
+            signal.alarm(0)
+            signal.signal(signal.SIGALRM, old)
         out['secs'] = round(time.time() - t0, 2)
         out['name'] = b['name']
         return out
